@@ -112,7 +112,10 @@ func decodeParamFilter(el *paramFilter) (*ParamFilter, error) {
 		pf.IsNotDefined = true
 	}
 	if el.TextMatch != nil {
-		pf.TextMatch = &TextMatch{Text: el.TextMatch.Text}
+		pf.TextMatch = &TextMatch{
+			Text:            el.TextMatch.Text,
+			NegateCondition: bool(el.TextMatch.NegateCondition),
+		}
 	}
 	return pf, nil
 }
@@ -126,7 +129,10 @@ func decodePropFilter(el *propFilter) (*PropFilter, error) {
 		pf.IsNotDefined = true
 	}
 	if el.TextMatch != nil {
-		pf.TextMatch = &TextMatch{Text: el.TextMatch.Text}
+		pf.TextMatch = &TextMatch{
+			Text:            el.TextMatch.Text,
+			NegateCondition: bool(el.TextMatch.NegateCondition),
+		}
 	}
 	if el.TimeRange != nil {
 		if el.TimeRange.Start != nil {
